@@ -424,10 +424,14 @@ func runDebugPair(c *CaseDesc) []string {
 			total++
 			if kv["inc"] == "1" {
 				nInc++
+				origin := kv["origin"]
+				if origin == "-" {
+					origin = "" // the dump writes "-" for an empty name (providers of an unnamed sub-sequence)
+				}
 				if kv["index"] != "-1" {
-					want = append(want, kv["origin"]+"("+kv["index"]+")")
+					want = append(want, origin+"("+kv["index"]+")")
 				} else {
-					want = append(want, kv["origin"])
+					want = append(want, origin)
 				}
 			} else {
 				nExc++
